@@ -3,15 +3,13 @@
 # Only what the registered checks need is required to build; other files (work in progress) are attempted but not fatal.
 set -e
 cd "$(dirname "$0")"
-python3 translator/py2coq.py kernels /repo coq/Gen/Kernels.v
-for w in validators signatures; do
-  out="coq/Gen/$(python3 -c "print('$w'.capitalize())").v"
-  if [ -f "translator/${w}_tx.py" ]; then python3 translator/py2coq.py $w /repo "$out" || echo "translator $w failed (non-fatal in setup)"; fi
-done
 /venv/bin/python - <<'PY'
 import json, sys
 sys.path.insert(0, 'harness')
 import core
+# regenerate coq/Gen from /repo; a source the translators do not accept falls back to the committed snapshot (see core.regenerate)
+b, fb = core.regenerate(['kernels', 'validators', 'signatures', 'classes'])
+print('regenerated coq/Gen; fallbacks to snapshot:', fb or 'none', '; broken:', b or 'none')
 core.ensure_makefile()
 m = json.load(open('MANIFEST.json'))
 ids = sorted({c['property_id'] for c in m['checks']})
